@@ -221,6 +221,20 @@ theorem reachable_run (S : Sys σ) {s : σ} (h : Reachable S s) (ts : List Tid) 
     · next s1 h1 => exact ih (Reachable.step h h1)
     · exact ih h
 
+theorem reachableR_runG (S : Sys σ) {ok : σ → Tid → Prop} (okb : σ → Tid → Bool)
+    (hok : ∀ s t, okb s t = true → ok s t) {s : σ} (h : ReachableR S ok s) (ts : List Tid) :
+    ReachableR S ok (runG S okb s ts) := by
+  induction ts generalizing s with
+  | nil => exact h
+  | cons t ts ih =>
+    simp only [runG]
+    split
+    · next hb =>
+      split
+      · next s1 h1 => exact ih (ReachableR.step h (hok _ _ hb) h1)
+      · exact ih h
+    · exact ih h
+
 /-- Invariant rule. -/
 theorem invariant {S : Sys σ} (I : σ → Prop) (h0 : I S.init)
     (hstep : ∀ s t s', I s → S.step s t = some s' → I s') : ∀ s, Reachable S s → I s := by
